@@ -2,8 +2,10 @@
 //! M+S cells (Coq mechanism model): RankSelectSE512 and RankSelectSE256 (all four option combinations),
 //! RankSelectInterleaved256 (rank/select/get, select cache on with several sample rates and off, the
 //! hardware/adaptive/optimized/bulk entry points), RankSelectSimple, RankSelectFewOne, RankSelectFewZero,
-//! BitVector (operation histories: push/pop/set/resize/ensure_set1/fast_ensure_set1/insert/clear/get/rank/count).
-//! S-only cells: mixed (both dims), trivial, adaptive, multidim, BitVector::rank1_bulk_simd, bulk_*_simd.
+//! BitVector (operation histories: push/pop/set/resize/ensure_set1/fast_ensure_set1/insert/clear/get/rank/count),
+//! RankSelectMixedIL256 (both dimensions), RankSelectAllZero/AllOne, AdaptiveRankSelect, MultiDimRankSelect<2> /
+//! AdaptiveMultiDimensional (forwarders onto interleaved-256).
+//! S-only cells: BitVector::rank1_bulk_simd, bulk_rank1_simd / bulk_select1_simd / bulk_popcount_simd.
 use crate::util::*;
 use serde_json::{json, Value};
 use zipora::succinct::rank_select::*;
@@ -18,9 +20,9 @@ Definition ok (c : case_t) : bool := case_ok c.
 "#;
 
 struct Ctx { sum: Summary, shards: CoqShards, budget: usize, all_queries: bool,
-             // abort protection: FastVec bounds failures abort the process instead of panicking.  The whole run is first
-             // executed in a child process that logs every case before touching the library; a case the child died in
-             // is reported as a failure and skipped in this process.
+             // abort protection: FastVec bounds failures abort the process instead of panicking.  The run is executed in
+             // a worker child process that logs every case before touching the library; the parent only supervises:
+             // a case the worker died in is handed to the next worker as a recorded failure and skipped.
              probe_log: Option<std::fs::File>, case_no: usize, skip: std::collections::HashSet<usize>, stop_at: usize }
 impl Ctx {
     fn begin_case(&mut self, cj: &Value) -> bool {
@@ -35,19 +37,20 @@ impl Ctx {
     }
 }
 
-/// Run this binary again as a child on `spec`; returns (exited normally, last logged case).
-fn probe_child(args: &Args, spec: &Value, tag: usize) -> (bool, Option<Value>) {
-    let dir = format!("{}/probe_{}", args.out, tag);
-    std::fs::create_dir_all(&dir).ok();
-    let f = format!("{}/spec.json", dir);
+/// Run this binary again as a worker child on `spec`, writing into the same output directory;
+/// returns (exited normally, last logged case).
+fn probe_child(args: &Args, spec: &Value) -> (bool, Option<Value>) {
+    let f = format!("{}/probe_spec.json", args.out);
     std::fs::write(&f, spec.to_string()).ok();
+    std::fs::remove_file(format!("{}/probe.log", args.out)).ok();
     let st = std::process::Command::new(std::env::current_exe().unwrap())
-        .args(["C04", "--seed", &args.seed.to_string(), "--tier", if args.thorough { "thorough" } else { "quick" }, "--out", &dir, "--replay", &f])
+        .args(["C04", "--seed", &args.seed.to_string(), "--tier", if args.thorough { "thorough" } else { "quick" }, "--out", &args.out, "--replay", &f])
         .stdout(std::process::Stdio::null()).stderr(std::process::Stdio::null()).status();
     let ok = matches!(st, Ok(s) if s.success());
-    let last = std::fs::read_to_string(format!("{}/probe.log", dir)).ok()
+    let last = std::fs::read_to_string(format!("{}/probe.log", args.out)).ok()
         .and_then(|t| t.lines().last().map(|l| l.to_string())).and_then(|l| serde_json::from_str::<Value>(&l).ok());
-    std::fs::remove_dir_all(&dir).ok();
+    std::fs::remove_file(&f).ok();
+    std::fs::remove_file(format!("{}/probe.log", args.out)).ok();
     (ok, last)
 }
 
@@ -167,7 +170,7 @@ fn one_vector(cx: &mut Ctx, bits: &[bool], mode: u32, r: &mut Rng, to_coq: bool)
     cell!("few_one", true, RankSelectFewOne::from_bitvector(&make_bv(bits, mode)));
     cell!("few_zero", true, RankSelectFewZero::from_bitvector(&make_bv(bits, mode)));
     cell!("adaptive", true, AdaptiveRankSelect::new(make_bv(bits, mode)));
-    for c in ["adaptive", "mixed/dim0", "mixed/dim1", "trivial", "bitvector/rank1_bulk_simd", "bulk_simd", "multidim"] { cx.sum.cell_status(c, "S-only"); }
+    for c in ["bitvector/rank1_bulk_simd", "bulk_simd"] { cx.sum.cell_status(c, "S-only"); }
     // mixed: this vector as dim0 with a different dim1, and the other way round
     {
         let other: Vec<bool> = (0..(n / 2 + 3)).map(|i| i % 3 == 0).collect();
@@ -193,6 +196,34 @@ fn one_vector(cx: &mut Ctx, bits: &[bool], mode: u32, r: &mut Rng, to_coq: bool)
     }
     if o.ones.is_empty() { cell!("trivial", true, Ok::<_, zipora::ZiporaError>(RankSelectAllZero::new(n))); }
     if o.zeros.is_empty() { cell!("trivial", true, Ok::<_, zipora::ZiporaError>(RankSelectAllOne::new(n))); }
+    // multi-dimensional wrappers: this vector and its negation as the two dimensions
+    {
+        let name = "multidim";
+        cx.sum.eval(name, &key, nontrivial);
+        let neg: Vec<bool> = bits.iter().map(|b| !b).collect();
+        let res = guarded(|| {
+            let mut bad: Vec<String> = vec![];
+            let md = MultiDimRankSelect::<2>::new(vec![make_bv(bits, mode), make_bv(&neg, 0)]).map_err(|e| format!("{:?}", e))?;
+            for &p in &ps {
+                let got = md.bulk_rank_multidim(&[p, p]);
+                if got != [o.pre[p], p - o.pre[p]] && bad.len() < 3 { bad.push(format!("bulk_rank_multidim([{p}, {p}]) = {:?} want [{}, {}]", got, o.pre[p], p - o.pre[p])); }
+            }
+            let (no, nz) = (o.ones.len(), o.zeros.len());
+            for k in 0..no.min(300) { if nz > 0 {
+                let got = md.bulk_select_multidim(&[k, k % nz]).ok();
+                if got != Some([o.ones[k], o.zeros[k % nz]]) && bad.len() < 3 { bad.push(format!("bulk_select_multidim([{}, {}]) = {:?}", k, k % nz, got)); } } }
+            if md.bulk_select_multidim(&[no, 0]).is_ok() { bad.push("bulk_select_multidim([ones, 0]) not refused".into()); }
+            if md.bulk_select_multidim(&[0, nz]).is_ok() { bad.push("bulk_select_multidim([0, zeros]) not refused".into()); }
+            let amd = AdaptiveMultiDimensional::new_dual(make_bv(bits, mode), make_bv(&neg, 0)).map_err(|e| format!("{:?}", e))?;
+            bad.extend(check_ops(&amd, &o, &ps, true));
+            Ok::<_, String>(bad)
+        });
+        match res {
+            Err(p) => cx.sum.fail(name, class, cj.clone(), &format!("panicked: {}", p)),
+            Ok(Err(e)) => cx.sum.fail(name, class, cj.clone(), &format!("construction refused: {}", e)),
+            Ok(Ok(bad)) => if !bad.is_empty() { cx.sum.fail(name, class, cj.clone(), &bad.join("; ")); }
+        }
+    }
     // the bit vector's own rank, and the accelerated / bulk entry points
     {
         let name = "bitvector";
@@ -267,6 +298,8 @@ fn one_vector(cx: &mut Ctx, bits: &[bool], mode: u32, r: &mut Rng, to_coq: bool)
     if to_coq && mode == 0 && n <= 2600 && cx.shards.len() < cx.budget {
         let combo = (r.below(2) == 1, r.below(2) == 1);
         let rate = *r.pick(&[1usize, 3, 64, 100, 256, 512, 512]);
+        // the other dimension of the mixed structure: shorter, equal, longer (extra all-zero lines), a line longer
+        let olen = match r.below(5) { 0 => 0, 1 => n / 2 + 3, 2 => n, 3 => n + 1, _ => n + 300 };
         let res = guarded(|| {
             let rs = RankSelectSE512::with_options(make_bv(bits, 0), combo.0, combo.1).unwrap();
             let fw = RankSelectFewOne::from_bitvector(&make_bv(bits, 0)).unwrap();
@@ -276,6 +309,14 @@ fn one_vector(cx: &mut Ctx, bits: &[bool], mode: u32, r: &mut Rng, to_coq: bool)
             let s2 = RankSelectSE256::with_options(make_bv(bits, 0), combo.0, combo.1).unwrap();
             let sm = RankSelectSimple::new(make_bv(bits, 0)).unwrap();
             let fz = RankSelectFewZero::from_bitvector(&make_bv(bits, 0)).unwrap();
+            let ad = AdaptiveRankSelect::new(make_bv(bits, 0)).unwrap();
+            let other: Vec<bool> = (0..olen).map(|i| i % 3 == 0).collect();
+            let mx0 = RankSelectMixedIL256::new(make_bv(bits, 0), make_bv(&other, 0)).unwrap();
+            let mx1 = RankSelectMixedIL256::new(make_bv(&other, 0), make_bv(bits, 0)).unwrap();
+            let (d0, d1) = (mx0.dim0(), mx1.dim1());
+            let az = RankSelectAllZero::new(n); let ao = RankSelectAllOne::new(n);
+            let neg: Vec<bool> = bits.iter().map(|b| !b).collect();
+            let md = MultiDimRankSelect::<2>::new(vec![make_bv(bits, 0), make_bv(&neg, 0)]).unwrap();
             let mut qs: Vec<(u32, usize)> = vec![];
             let mut sample: Vec<usize> = vec![0, n, n / 2];
             for b in [63usize, 64, 65, 511, 512, 513, 1023, 1024, 1025] { if b <= n { sample.push(b); } }
@@ -287,7 +328,15 @@ fn one_vector(cx: &mut Ctx, bits: &[bool], mode: u32, r: &mut Rng, to_coq: bool)
                 for op in [20u32, 21, 30, 31, 40, 41, 45] { qs.push((op, p)); }
                 if p < n { for op in [24u32, 34, 44] { qs.push((op, p)); } }
             }
-            for op in [24u32, 34, 44] { qs.push((op, n)); }
+            for op in [24u32, 34, 44, 64, 73, 78] { qs.push((op, n)); }
+            for &p in &sample {
+                for op in [60u32, 61, 70, 71, 75, 76, 92, 93] { qs.push((op, p)); }
+                if p < n { for op in [64u32, 73, 78] { qs.push((op, p)); } }
+            }
+            qs.push((60, n + 9)); qs.push((61, n + 9)); qs.push((92, n + 1)); qs.push((93, n + 1));
+            for op in [65u32, 74, 79] { qs.push((op, 0)); }
+            if o.ones.is_empty() { for &p in &sample { qs.push((80, p)); qs.push((81, p)); qs.push((82, p)); qs.push((83, p)); qs.push((84, p)); } qs.push((83, n)); qs.push((84, n)); qs.push((85, 0)); }
+            if o.zeros.is_empty() { for &p in &sample { qs.push((86, p)); qs.push((87, p)); qs.push((88, p)); qs.push((89, p)); qs.push((90, p)); } qs.push((88, n)); qs.push((90, n)); qs.push((91, 0)); }
             for op in 50u32..=55 { qs.push((op, 0)); }
             for &p in &[0usize, n / 3, n, n + 5] { for op in 56u32..=59 { qs.push((op, p)); } }
             qs.push((8, n + 1)); qs.push((9, n + 77)); qs.push((8, n + 300));
@@ -301,12 +350,15 @@ fn one_vector(cx: &mut Ctx, bits: &[bool], mode: u32, r: &mut Rng, to_coq: bool)
             // the ones just before / at / after every 256-bit line boundary
             for b in [256usize, 512, 768, 1024, 2048] { if b <= n { let q = o.pre[b]; ks1.push(q.saturating_sub(1)); ks1.push(q); } }
             ks1.sort(); ks1.dedup();
-            for &k in &ks1 { qs.push((11, k)); qs.push((13, k)); qs.push((22, k)); qs.push((32, k)); qs.push((42, k)); }
+            for &k in &ks1 { qs.push((11, k)); qs.push((13, k)); qs.push((22, k)); qs.push((32, k)); qs.push((42, k)); qs.push((72, k)); qs.push((77, k)); }
+            // the forwarders onto the (linear-search) cached select of interleaved-256: a few indices are enough
+            for (i, &k) in ks1.iter().enumerate() { if i % 4 == 0 || k + 1 >= no { qs.push((62, k)); qs.push((94, k)); } }
             let mut ks0: Vec<usize> = vec![0, 1, nz / 2, nz.saturating_sub(1), nz, nz + 1];
             for _ in 0..3 { ks0.push(Rng::new((n + nz + ks0.len()) as u64).below(nz as u64 + 1) as usize); }
             for b in [256usize, 512, 768, 1024, 2048] { if b <= n { let q = b - o.pre[b]; ks0.push(q.saturating_sub(1)); ks0.push(q); } }
             ks0.sort(); ks0.dedup();
-            for &k in &ks0 { qs.push((12, k)); qs.push((23, k)); qs.push((33, k)); qs.push((43, k)); qs.push((46, k)); }
+            for &k in &ks0 { qs.push((12, k)); qs.push((23, k)); qs.push((33, k)); qs.push((43, k)); qs.push((46, k)); qs.push((63, k)); }
+            for (i, &k) in ks0.iter().enumerate() { if i % 4 == 0 || k + 1 >= nz { qs.push((95, k)); } }
             for k in [0usize, no / 3, no.saturating_sub(1), no] { qs.push((14, k)); qs.push((15, k)); qs.push((16, k)); qs.push((17, k)); qs.push((18, k)); }
             qs.push((4, n));
             let ans: Vec<i128> = qs.iter().map(|&(op, a)| match op {
@@ -336,14 +388,28 @@ fn one_vector(cx: &mut Ctx, bits: &[bool], mode: u32, r: &mut Rng, to_coq: bool)
                 53 => fz.count_ones() as i128, 54 => fw.count_ones() as i128, 55 => il.count_ones() as i128,
                 56 => il.rank1_hardware_accelerated(a) as i128, 57 => il.rank1_adaptive(a) as i128,
                 58 => il.rank1_optimized(a) as i128, 59 => il.rank1_bulk(&[a])[0] as i128,
+                60 => ad.rank1(a) as i128, 61 => ad.rank0(a) as i128,
+                62 => ad.select1(a).map(|x| x as i128).unwrap_or(-1), 63 => ad.select0(a).map(|x| x as i128).unwrap_or(-1),
+                64 => ad.get(a).map(|b| b as i128).unwrap_or(-1), 65 => ad.count_ones() as i128,
+                70 => d0.rank1(a) as i128, 71 => d0.rank0(a) as i128, 72 => d0.select1(a).map(|x| x as i128).unwrap_or(-1),
+                73 => d0.get(a).map(|b| b as i128).unwrap_or(-1), 74 => d0.count_ones() as i128,
+                75 => d1.rank1(a) as i128, 76 => d1.rank0(a) as i128, 77 => d1.select1(a).map(|x| x as i128).unwrap_or(-1),
+                78 => d1.get(a).map(|b| b as i128).unwrap_or(-1), 79 => d1.count_ones() as i128,
+                80 => az.rank1(a) as i128, 81 => az.rank0(a) as i128, 82 => az.select1(a).map(|x| x as i128).unwrap_or(-1),
+                83 => az.select0(a).map(|x| x as i128).unwrap_or(-1), 84 => az.get(a).map(|b| b as i128).unwrap_or(-1), 85 => az.count_ones() as i128,
+                86 => ao.rank1(a) as i128, 87 => ao.rank0(a) as i128, 88 => ao.select1(a).map(|x| x as i128).unwrap_or(-1),
+                89 => ao.select0(a).map(|x| x as i128).unwrap_or(-1), 90 => ao.get(a).map(|b| b as i128).unwrap_or(-1), 91 => ao.count_ones() as i128,
+                92 => md.bulk_rank_multidim(&[a, a])[0] as i128, 93 => md.bulk_rank_multidim(&[a, a])[1] as i128,
+                94 => md.bulk_select_multidim(&[a, 0]).map(|v| v[0] as i128).unwrap_or(-1),
+                95 => md.bulk_select_multidim(&[0, a]).map(|v| v[1] as i128).unwrap_or(-1),
                 _ => fw.get(a).map(|b| b as i128).unwrap_or(-1) }).collect();
             (qs, ans)
         });
         if let Ok((qs, ans)) = res {
             let runs_coq: Vec<String> = runs.iter().map(|(b, k)| format!("({}, {}%N)", coq_bool(*b), k)).collect();
             let qs_coq: Vec<String> = qs.iter().map(|(op, a)| format!("({}%N, {}%N)", op, a)).collect();
-            let term = format!("RS [{}] {} {} {}%N [{}] {}", runs_coq.join("; "), coq_bool(combo.0), coq_bool(combo.1), rate, qs_coq.join("; "), coq_z_list(ans.iter().cloned()));
-            cx.shards.push(term, json!({"runs": cj["runs"], "mode": 0, "speed_select": [combo.0, combo.1], "il_sample_rate": rate}));
+            let term = format!("RS [{}] {} {} {}%N {}%N [{}] {}", runs_coq.join("; "), coq_bool(combo.0), coq_bool(combo.1), rate, olen, qs_coq.join("; "), coq_z_list(ans.iter().cloned()));
+            cx.shards.push(term, json!({"runs": cj["runs"], "mode": 0, "speed_select": [combo.0, combo.1], "il_sample_rate": rate, "mixed_other_len": olen}));
         }
     }
 }
@@ -531,37 +597,54 @@ pub fn run(args: &Args) {
     if let Some(f) = &args.replay {
         let v: Value = serde_json::from_str(&std::fs::read_to_string(f).expect("replay file")).expect("json");
         if v.get("probe").and_then(|x| x.as_bool()) == Some(true) {
-            // child mode: same flow, every case logged before it runs, results discarded
+            // worker mode: every case is logged before it runs
             is_child = true;
+            unsafe { libc::prctl(libc::PR_SET_PDEATHSIG, libc::SIGKILL); }
             cx.probe_log = std::fs::File::create(format!("{}/probe.log", args.out)).ok();
             if let Some(a) = v["skip"].as_array() { for x in a { cx.skip.insert(x.as_u64().unwrap_or(0) as usize); } }
+            if let Some(n) = v["stop_at"].as_u64() { cx.stop_at = n as usize; }
+            if let Some(a) = v["aborted"].as_array() {
+                for c in a {
+                    let cell = if c.get("cell").is_some() { "bitvector" } else { "process" };
+                    cx.sum.eval(cell, &format!("abort {}", c), true);
+                    cx.sum.fail(cell, None, c.clone(), "the process aborted (bounds failure / abort inside the library) while running this case");
+                }
+            }
             if !v["case"].is_null() { replay_case = Some(v["case"].clone()); }
         } else {
             replay_case = Some(if v.get("case").is_some() { v["case"].clone() } else { v });
         }
     }
     if !is_child {
-        for round in 0..4 {
-            let spec = json!({"probe": true, "skip": cx.skip.iter().cloned().collect::<Vec<_>>(), "case": replay_case.clone().unwrap_or(Value::Null)});
-            let (ok, last) = probe_child(args, &spec, round);
-            if ok { break; }
+        // supervisor: the worker writes summary.json and the shards; rerun it past every case it aborts in
+        let mut skip: Vec<usize> = vec![];
+        let mut aborted: Vec<Value> = vec![];
+        let mut stop_at: Option<usize> = None;
+        for round in 0..8 {
+            let spec = json!({"probe": true, "skip": skip, "aborted": aborted, "stop_at": stop_at, "case": replay_case.clone().unwrap_or(Value::Null)});
+            let (ok, last) = probe_child(args, &spec);
+            if ok { return; }
             match last {
                 Some(l) => {
                     let n = l["n"].as_u64().unwrap_or(0) as usize;
-                    if n == 0 || !cx.skip.insert(n) { break; }
-                    let cell = if l["case"].get("cell").is_some() { "bitvector" } else { "process" };
-                    cx.sum.eval(cell, &format!("abort {}", l["case"]), true);
-                    cx.sum.fail(cell, None, l["case"].clone(), "the process aborted (bounds failure / abort inside the library) while running this case");
-                    // many cases abort: after the last round only the cases before the next (unprobed) abort are run here
-                    if round == 3 {
-                        let spec = json!({"probe": true, "skip": cx.skip.iter().cloned().collect::<Vec<_>>(), "case": replay_case.clone().unwrap_or(Value::Null)});
-                        let (ok2, last2) = probe_child(args, &spec, 9);
-                        if !ok2 { cx.stop_at = last2.and_then(|l| l["n"].as_u64()).unwrap_or(0) as usize; }
-                    }
+                    if n == 0 || skip.contains(&n) { break; }
+                    skip.push(n);
+                    if aborted.len() < 4 { aborted.push(l["case"].clone()); }
+                    // many cases abort: from the fifth one on, only the cases before it are run
+                    if round >= 4 { stop_at = Some(n); }
                 }
                 None => break,
             }
         }
+        // the worker never got through: report what was seen
+        for c in aborted {
+            let cell = if c.get("cell").is_some() { "bitvector" } else { "process" };
+            cx.sum.eval(cell, &format!("abort {}", c), true);
+            cx.sum.fail(cell, None, c, "the process aborted (bounds failure / abort inside the library) while running this case");
+        }
+        let sh = cx.shards.write(&args.out);
+        cx.sum.write(&args.out, sh);
+        return;
     }
     if let Some(c) = replay_case {
         run_one(&mut cx, &c);
